@@ -100,9 +100,12 @@ def jax_vi(seed, sample_mode, n_samples, configs):
 # ---- JAX driver split into segments by stop / resume -----------------------------------------------
 
 def jax_resume(seed, entries, scratch):
-    """An entry is [sample_mode, n_samples, total, cuts]: one uninterrupted optimize_kl run with an
-    output directory, and the same run stopped after each of `cuts` iterations and continued with
-    resume=True (same seed, same arguments, growing n_total_iterations)."""
+    """An entry is [sample_mode, n_samples, total, cuts(, schedule)]: one uninterrupted optimize_kl run
+    with an output directory, and the same run stopped after each of `cuts` iterations and continued
+    with resume=True (same seed, same arguments, growing n_total_iterations).  With schedule=True,
+    draw_linear_kwargs / nonlinearly_update_kwargs / kl_kwargs / n_samples are given in their documented
+    callable form with VALUES that change from iteration to iteration (cheap solvers first, accurate
+    ones later; n_samples, n_samples+1, n_samples, ...)."""
     import logging
     import os
     import shutil
@@ -128,12 +131,16 @@ def jax_resume(seed, entries, scratch):
     pos = jft.Vector({"a": 0.1 * random.normal(sk, (2,))})
     delta = 1e-4
 
-    def call(total, odir, resume, mode, ns):
+    def call(total, odir, resume, mode, ns, sched=False):
+        dl = lambda i: dict(cg_name=None, cg_kwargs=dict(absdelta=delta / 10., maxiter=[1, 10, 3, 10][i % 4]))
+        nu = lambda i: dict(minimize_kwargs=dict(name=None, xtol=delta, cg_kwargs=dict(name=None), maxiter=[1, 5, 2, 5][i % 4]))
+        kk = lambda i: dict(minimize_kwargs=dict(name=None, xtol=delta, cg_kwargs=dict(name=None), maxiter=[1, 5, 2, 4][i % 4]))
+        nn = (lambda i: ns + (i % 2)) if ns else ns
         return jft.optimize_kl(
-            lh, pos, key=key, n_total_iterations=total, n_samples=ns,
-            draw_linear_kwargs=dict(cg_name=None, cg_kwargs=dict(absdelta=delta / 10., maxiter=10)),
-            nonlinearly_update_kwargs=dict(minimize_kwargs=dict(name=None, xtol=delta, cg_kwargs=dict(name=None), maxiter=5)),
-            kl_kwargs=dict(minimize_kwargs=dict(name=None, xtol=delta, cg_kwargs=dict(name=None), maxiter=5)),
+            lh, pos, key=key, n_total_iterations=total, n_samples=nn if sched else ns,
+            draw_linear_kwargs=dl if sched else dl(1),
+            nonlinearly_update_kwargs=nu if sched else nu(1),
+            kl_kwargs=kk if sched else kk(1),
             sample_mode=mode, odir=odir, resume=resume)
 
     def dump(samples, st):
@@ -141,16 +148,18 @@ def jax_resume(seed, entries, scratch):
                 "samples": hx(samples.samples.tree["a"]) if len(samples) else None,
                 "keys": None if samples.keys is None else hx(samples.keys), "state_key": hx(st.key), "nit": int(st.nit)}
     out = {}
-    for j, (mode, ns, total, cuts) in enumerate(entries):
+    for j, ent in enumerate(entries):
+        mode, ns, total, cuts = ent[:4]
+        sched = bool(ent[4]) if len(ent) > 4 else False
         d1 = os.path.join(scratch, "resume_a%d" % j)
         d2 = os.path.join(scratch, "resume_b%d" % j)
         for d in (d1, d2):
             shutil.rmtree(d, ignore_errors=True)
-        ref = dump(*call(total, d1, False, mode, ns))
+        ref = dump(*call(total, d1, False, mode, ns, sched))
         res = None
         for k, t in enumerate(list(cuts) + [total]):
-            res = call(t, d2, k > 0, mode, ns)
-        out["%s:%d:%d:%s" % (mode, ns, total, "+".join(str(c) for c in cuts))] = {"uninterrupted": ref, "segmented": dump(*res)}
+            res = call(t, d2, k > 0, mode, ns, sched)
+        out["%s:%d:%d:%s%s" % (mode, ns, total, "+".join(str(c) for c in cuts), ":schedule" if sched else "")] = {"uninterrupted": ref, "segmented": dump(*res)}
         for d in (d1, d2):
             shutil.rmtree(d, ignore_errors=True)
     return out
